@@ -76,6 +76,7 @@ type c18Plan struct {
 	Gate       bool      `json:"gate"`
 	Gates      int       `json:"gates,omitempty"`
 	Small      bool      `json:"small_blocks,omitempty"`
+	T4ms       int       `json:"t4_ms,omitempty"` // 0: the default c18T4 (10 s, never in play)
 	Desc       string    `json:"desc"`
 }
 
@@ -299,6 +300,18 @@ func c18Plans(seed uint64, quick bool) []c18Plan {
 			}
 		}
 	}
+	// E3. a slow line: every request of the sender is forwarded 100 ms late (well inside T2 = 250 ms, nothing times
+	// out, nothing is retransmitted), T4 = 400 ms. A 6-block message then takes > T4 from its first to its last block
+	// while every inter-block gap stays near 100 ms: T4 is an INTER-block timer, the message must arrive.
+	for role := 0; role < 2; role++ {
+		for _, ha := range []bool{true, false} {
+			de := rule(role, e4mitm.OnENQ, 1, e4mitm.OpDelay)
+			de.Delay, de.Count = 100*time.Millisecond, -1
+			p := c18Plan{Family: "slow-line", Retry: 2, HostActive: ha, T4ms: 400, Rules: []c18Rule{de}}
+			p.Msgs[role] = []int{6, 1}
+			add(p)
+		}
+	}
 	// F. contention without any other fault
 	nCont := 32
 	if !quick {
@@ -495,7 +508,12 @@ func c18Run(env *fw.Env, p *c18Plan) *c18Scenario {
 	}
 	var ends [2]*s1End
 	mk := func(role int, active bool, port int) (*s1End, error) {
-		return s1New(s1Opts{Equip: role == roleE, Dev: 7, Active: active, Port: port, T1: c18T1, T2: c18T2, T4: c18T4, Retry: p.Retry})
+		t4 := c18T4
+		if p.T4ms > 0 {
+			t4 = time.Duration(p.T4ms) * time.Millisecond
+		}
+
+		return s1New(s1Opts{Equip: role == roleE, Dev: 7, Active: active, Port: port, T1: c18T1, T2: c18T2, T4: t4, Retry: p.Retry})
 	}
 	pe, err := mk(passiveRole, false, 0)
 	if err != nil {
@@ -833,6 +851,25 @@ func c18Judge(env *fw.Env, p *c18Plan, sc *c18Scenario, final bool) {
 			case !s.Returned:
 			case s.Err == "":
 				env.Event("sends_ok", 1)
+				if count[s] == 0 && p.Family == "slow-line" {
+					// premise of the slow-line plans: every inter-block gap stayed clearly inside T4 (a loaded machine
+					// may stretch one: then the receiver discards the partial message legitimately)
+					var lastT, maxGap time.Duration
+					for _, ev := range sc.hist {
+						if ev.Kind == e4mitm.OnBlock && ev.From == sc.side[role] {
+							if lastT > 0 && ev.T-lastT > maxGap {
+								maxGap = ev.T - lastT
+							}
+							lastT = ev.T
+						}
+					}
+					if maxGap*2 >= time.Duration(p.T4ms)*time.Millisecond {
+						env.Note("plan %d [slow-line]: an inter-block gap of %v (T4 %d ms): premise not met", p.Idx, maxGap, p.T4ms)
+						env.Discard()
+
+						return
+					}
+				}
 				if count[s] == 0 {
 					key, why := "successful-send-not-delivered", ""
 					if shape := c18UnackedBlock(sc, role, s); shape != "" {
@@ -1174,7 +1211,10 @@ func c18AckedThenClosed(sc *c18Scenario, role int, s *c18Send) string {
 // emitted a grant that the middlebox forwarded.
 func c18LateCharacters(p *c18Plan, sc *c18Scenario) string {
 	for i, n := range sc.applied {
-		if n > 0 && i < len(p.Rules) && (p.Rules[i].Op == e4mitm.OpDelay || p.Rules[i].Op == e4mitm.OpDelayMid) {
+		// a delay makes a character LATE only if it can outlast the wait it falls into: T2 for a handshake character or
+		// a whole block (two delays may add up inside one round trip, hence the factor 2), T1 inside a block
+		late := i < len(p.Rules) && ((p.Rules[i].Op == e4mitm.OpDelay && 2*p.Rules[i].Delay > c18T2) || (p.Rules[i].Op == e4mitm.OpDelayMid && p.Rules[i].Delay > c18T1))
+		if n > 0 && late {
 			return "rule: " + p.Rules[i].Role + " " + p.Rules[i].Rule.String()
 		}
 	}
